@@ -19,7 +19,7 @@ import ast
 
 from ..cfg import CFG
 from ..core import AnalysisError, call_name, contains_yield, provenance, short, walk_no_nested
-from ..util import calls_named, has_call, innermost_stmt, norm
+from ..util import calls_named, has_call, innermost_stmt, norm, stored_paths
 
 BK = "molli.storage.backends"
 UKV = "molli.storage.ukvfile"
@@ -37,7 +37,7 @@ ASSUMPTIONS = [
     "fasteners.InterProcessReaderWriterLock provides reader/writer exclusion between processes",
     "statements without calls and without yield do not raise; begin_* failing after acquire is outside the property's list",
 ]
-FLOORS = {"C04.R7": 1, "C04.R1": 4, "C04.R2": 2, "C04.R3": 4, "C04.R4": 3, "C04.R5": 2}
+FLOORS = {"C04.R8": 1, "C04.R7": 1, "C04.R1": 4, "C04.R2": 2, "C04.R3": 4, "C04.R4": 3, "C04.R5": 2}
 
 SESSIONS = {"reading": ("read", "begin_read", "end_read"), "writing": ("write", "begin_write", "end_write")}
 
@@ -77,6 +77,7 @@ def run(chk):
     chk.call(r4_lock_identity, chk, base)
     chk.call(r5_writes_under_lock, chk, base, classes)
     chk.call(r7_creation, chk, classes)
+    chk.call(r8_listing_refresh, chk, classes)
     # R6: "a reader sees only complete records" and "no record of a completed session is lost" also for the session that ended
     # with an exception in the backend write: what the next session's index refresh (map_blocks, anchored here as well) admits,
     # where it lets the next append start, that the torn tail is cut off before that append, and that a put that failed
@@ -385,3 +386,40 @@ def r5_writes_under_lock(chk, base, classes):
     ok = tr is not None and any(isinstance(s, ast.With) and any(has_call(i.context_expr, {"self.writing"}) for i in s.items) for s in tr.node.body)
     chk.decide(ok, "C04.R5", f"{tr.key}:inside-writing", tr.where(), "truncate() runs inside self.writing()",
                "truncate() no longer runs inside a writing session")
+
+
+def r8_listing_refresh(chk, classes):
+    """A session starts by refreshing the key listing (R3 order); the refresh itself must *replace* the listing on every path,
+    whatever the handle held before: a refresh that is skipped under a test of the old listing (`if len(index) != len(self._keys)`,
+    `if not self._keys`) keeps keys that another handle's session never wrote, or misses the ones it did (the old listing holds
+    keys this handle advertised for puts that failed, so equal counts do not mean equal sets)."""
+    prog = chk.prog
+    n = 0
+    seen = set()
+    for ci in classes:
+        f = prog.method(ci, "update_keys")
+        if f is None or f.key in seen:
+            continue
+        seen.add(f.key)
+        if any("abstractmethod" in norm(d) for d in f.node.decorator_list):
+            continue
+        body = [s for s in f.node.body if not (isinstance(s, ast.Expr) and isinstance(s.value, ast.Constant))]
+        if not body or all(isinstance(s, ast.Pass) for s in body):
+            continue
+        n += 1
+        chk.analysed(f)
+        cfg = CFG(f.node)
+        stores = {nd.id for nd in cfg.nodes if nd.kind == "stmt" and isinstance(nd.ast, (ast.Assign, ast.AnnAssign)) and "self._keys" in stored_paths(nd.ast)}
+        key = f"{f.key}:listing-replaced-on-every-path"
+        if not stores:
+            chk.fail("C04.R8", key, f.where(), f"{f.qualname} never rebinds self._keys: the listing is not refreshed from the backend")
+            continue
+        p = cfg.path([cfg.entry], {cfg.exit}, avoid=stores, edge_ok=lambda a, b, lab: lab not in ("exc", "raise", "except"))
+        if p is not None:
+            tests = [nd for nd in p if nd.kind == "test"]
+            chk.fail("C04.R8", key, f.where(tests[0].ast if tests else None),
+                     f"{f.qualname} can complete without replacing self._keys" + (f" (when `{short(tests[0].ast.test, 50)}` decides so)" if tests else "") +
+                     ": the session then lists what this handle held before - keys of puts that failed, without the keys another handle's completed session wrote")
+        else:
+            chk.ok("C04.R8", key, f.where(), "every normal path rebinds self._keys from the backend's index")
+    chk.require(n >= 1, "no concrete update_keys found in the collection backends")
